@@ -9,7 +9,7 @@
 (* function types of the harness.                                           *)
 EXTENDS TypeGate, Json, IOUtils, SequencesExt
 
-CONSTANT Family   \* "d1ret" | "d1par" | "fm" | "ladder" | "allret" | "allpar"
+CONSTANT Family   \* "d1ret" | "d1par" | "fm" | "ladder" | "ns" | "allret" | "allpar"
 
 VARIABLE row      \* [lvl |-> "root"] | [lvl |-> "block", b] | [lvl |-> "row", i (index into ItemSeq), nc (name class)]
 
@@ -70,13 +70,30 @@ RotoLadderItems ==
 FmSides == SideForms \cup D0(RotoLeaves)
 FmItems == {Fm(<<>>, a, r) : a \in FmSides, r \in FmSides} \ {Fm(<<>>, <<"unused">>, <<"unused">>)}
 
+(* ---- script-declared namesakes of leaf types (family "ns") -------------- *)
+(* For every leaf identifier L: the root namesake pkg.L, the sub-module      *)
+(* namesake pkg.ns.L and, as control, the real leaf L - bare and nested one  *)
+(* level under Option / List / Result / Verdict (either argument), in        *)
+(* parameter and in return position, and as filtermap payload; asked as      *)
+(* every Rust type of depth <= 1 in that position (so in particular as the   *)
+(* Rust leaf of the same name, bare and under the same constructor).         *)
+NsPartner(l) == IF l = "u64" THEN "i64" ELSE "u64"    \* the other argument of Result / Verdict
+NsShapes(t, p) == {t, Opt(t), Lst(t), Res(t, p), Res(p, t), Ver(t, p), Ver(p, t)}
+NsLeafPairs == UNION {{<<l, NsRoot(l)>>, <<l, NsSub(l)>>, <<l, l>>} : l \in NamesakeBases}
+NsTerms == UNION {NsShapes(Leaf(q[2]), Leaf(NsPartner(q[1]))) : q \in NsLeafPairs}
+NsItems == RetItems(NsTerms) \cup ParItems(NsTerms)
+           \cup {Fm(<<>>, Leaf(q[2]), <<"unused">>) : q \in NsLeafPairs}
+           \cup {Fm(<<>>, <<"bare">>, Leaf(q[2])) : q \in NsLeafPairs}
+
 Items == CASE Family = "d1ret"  -> RetItems(RotoD1)
+           [] Family = "ns"     -> NsItems
            [] Family = "d1par"  -> ParItems(RotoD1)
            [] Family = "fm"     -> FmItems
            [] Family = "ladder" -> RotoLadderItems
            [] Family = "allret" -> RetItems(RotoD1 \cup RotoD2 \cup RotoD3)
            [] Family = "allpar" -> ParItems(RotoD1 \cup RotoD2)
 Universe == CASE Family = "d1ret"  -> RetSigs(RustD1)
+              [] Family = "ns"     -> RetSigs(RustD1) \cup ParSigs(RustD1)
               [] Family = "d1par"  -> ParSigs(RustD1)
               [] Family = "fm"     -> RetSigs(RustD1)
               [] Family = "ladder" -> RustLadder
